@@ -49,7 +49,7 @@ def close(ctx, got, ref, tol, what, exact=False, **kw):
 
 @st.composite
 def eval_cases(draw, tier):
-    spec = draw(gen.tt_specs(**sizes(tier)))
+    spec = draw(gen.tt_specs(int_storage=True, **sizes(tier)))
     n = spec["n"]
     case = {"Y": spec, "I": draw(gen.indices(n)), "as_array": draw(st.booleans()),
             "shared_P": draw(st.booleans())}
@@ -69,7 +69,10 @@ def eval_cases(draw, tier):
 
 def prop_eval(case, ctx):
     spec = case["Y"]
-    Y = gen.build_tt(spec)
+    YL = gen.build_tt(spec)                       # what the library is given (integer arrays if the spec says so)
+    Y = gen.build_tt(spec, as_float=True)         # the float64 copy every reference value is computed from
+    if spec.get("store"):
+        ctx.label("stored_as:" + spec["store"])
     n, r = spec["n"], spec["r"]
     d = len(n)
     ex = exact_ok(spec)
@@ -86,9 +89,9 @@ def prop_eval(case, ctx):
     ref = F[tuple(Iarr.T)]
     tol = tolF[tuple(Iarr.T)]
 
-    got = ctx.lib(teneva.get_many, Y, Iarg)
+    got = ctx.lib(teneva.get_many, YL, Iarg)
     close(ctx, got, ref, tol, "get_many", ex)
-    got = ctx.lib(teneva.get, Y, Iarg)            # batch spelling of get
+    got = ctx.lib(teneva.get, YL, Iarg)            # batch spelling of get
     close(ctx, got, ref, tol, "get(batch)", ex)
     if case.get("long_m"):
         m_ = int(case["long_m"])
@@ -98,25 +101,25 @@ def prop_eval(case, ctx):
         refL = F[tuple(IL.T)]
         tolL = tolF[tuple(IL.T)]
         for fn_ in (teneva.get_many, teneva.get):
-            gotL = ctx.lib(fn_, Y, IL)
+            gotL = ctx.lib(fn_, YL, IL)
             ctx.check(np.shape(gotL) == (m_,), f"{fn_.__name__} on a batch of {m_} indices returned the wrong number of values", shape=list(np.shape(gotL)), m=m_)
             close(ctx, gotL, refL, tolL, f"{fn_.__name__}(long batch)", ex)
-        gotL = ctx.lib(teneva.accuracy_on_data, Y, IL, refL)
+        gotL = ctx.lib(teneva.accuracy_on_data, YL, IL, refL)
         nrL = float(np.linalg.norm(refL))
         if nrL > 0:
             ctx.check(np.ndim(gotL) == 0 and 0 <= gotL <= 4 * float(np.linalg.norm(tolL)) / nrL,
                       "accuracy_on_data of a tensor on its own values (long batch) is not ~0", got=repr(gotL), bound=4 * float(np.linalg.norm(tolL)) / nrL)
     one = Iarr[0] if case["as_array"] else I[0]
-    got = ctx.lib(teneva.get, Y, one)
+    got = ctx.lib(teneva.get, YL, one)
     ctx.check(np.ndim(got) == 0, "get(single index) did not return a scalar", got=repr(got))
     close(ctx, got, ref[0], tol[0], "get(single)", ex)
 
-    got = ctx.lib(teneva.full, Y)
+    got = ctx.lib(teneva.full, YL)
     close(ctx, got, F, tolF, "full", ex)
 
-    got = ctx.lib(teneva.sum, Y)
+    got = ctx.lib(teneva.sum, YL)
     close(ctx, got, F.sum(), K * EPS * A.sum(), "sum", ex)
-    got = ctx.lib(teneva.mean, Y)
+    got = ctx.lib(teneva.mean, YL)
     close(ctx, got, F.sum() / F.size, 2 * K * EPS * A.sum() / F.size, "mean")
 
     P = case["P"]
@@ -125,20 +128,20 @@ def prop_eval(case, ctx):
     for p in Pfull:
         W = np.multiply.outer(W, np.array(p, dtype=float))
     if not case["shared_P"]:
-        got = ctx.lib(teneva.mean, Y, P)
+        got = ctx.lib(teneva.mean, YL, P)
         close(ctx, got, (F * W).sum(), 2 * K * EPS * (A * np.abs(W)).sum(), "mean(P)")
     else:
-        got = ctx.lib(teneva.mean, Y, [P] * d)
+        got = ctx.lib(teneva.mean, YL, [P] * d)
         close(ctx, got, (F * W).sum(), 2 * K * EPS * (A * np.abs(W)).sum(), "mean(P shared)")
 
     # shape / ranks / size / erank
-    got = ctx.lib(teneva.shape, Y)
+    got = ctx.lib(teneva.shape, YL)
     ctx.check(list(map(int, got)) == n, "shape", got=got, ref=n)
-    got = ctx.lib(teneva.ranks, Y)
+    got = ctx.lib(teneva.ranks, YL)
     ctx.check(list(map(int, got)) == r, "ranks", got=got, ref=r)
-    got = ctx.lib(teneva.size, Y)
+    got = ctx.lib(teneva.size, YL)
     ctx.check(int(got) == sum(G.size for G in Y), "size", got=got)
-    er = float(ctx.lib(teneva.erank, Y))
+    er = float(ctx.lib(teneva.erank, YL))
     if d == 2:
         ctx.check(er == r[1], "erank for d=2 is the only bond rank", got=er, ref=r[1])
     else:
@@ -163,7 +166,7 @@ def prop_eval(case, ctx):
                     if any(np.linalg.norm(v) <= 8 * K * EPS * np.linalg.norm(a) or np.linalg.norm(v) == 0 for v, a in zip(refphi, absphi)):
                         ctx.label("interface_zero_skipped")
                         continue
-                got = ctx.lib(teneva.interface, Y, Parg, iarg, norm, ltr)
+                got = ctx.lib(teneva.interface, YL, Parg, iarg, norm, ltr)
                 ctx.check(isinstance(got, list) and len(got) == d + 1, "interface: not a list of d+1 vectors")
                 for k in range(d + 1):
                     v, a = refphi[k], absphi[k]
@@ -185,7 +188,7 @@ def prop_eval(case, ctx):
 
     # element and gradients
     ii = [int(x) for x in Iarr[0]]
-    val, grad = ctx.lib(teneva.get_and_grad, Y, i)
+    val, grad = ctx.lib(teneva.get_and_grad, YL, i)
     close(ctx, val, F[tuple(ii)], tolF[tuple(ii)], "get_and_grad value", ex)
     ctx.check(isinstance(grad, list) and len(grad) == d, "get_and_grad: gradient list")
     L = oracle.interface_ref(Y, None, ii, True)
@@ -206,9 +209,9 @@ def prop_eval(case, ctx):
 def binary_cases(draw, tier):
     kw = sizes(tier)
     kw["r_max"] = 4
-    s1 = draw(gen.tt_specs(**kw))
-    s2 = draw(gen.tt_specs(shape=s1["n"], **kw))
-    s3 = draw(gen.tt_specs(d_max=3, size_max=64, r_max=3))
+    s1 = draw(gen.tt_specs(int_storage=True, **kw))
+    s2 = draw(gen.tt_specs(shape=s1["n"], int_storage=True, **kw))
+    s3 = draw(gen.tt_specs(d_max=3, size_max=64, r_max=3, int_storage=True))
     return {"Y1": s1, "Y2": s2, "Y3": s3, "c": draw(gen.numbers), "c2": draw(gen.numbers),
             "I": draw(gen.indices(s1["n"], m_max=12)), "y": draw(st.lists(gen.reals(-5, 5), min_size=12, max_size=12)), "yscale10": draw(st.sampled_from([0, 0, 0, -20, -30, 20]))}
 
@@ -226,20 +229,28 @@ def interval_ratio(ctx, got, num2, tnum, den2, tden, what):
 
 def prop_binary(case, ctx):
     s1, s2, s3 = case["Y1"], case["Y2"], case["Y3"]
-    Y1, Y2, Y3 = gen.build_tt(s1), gen.build_tt(s2), gen.build_tt(s3)
+    Y1, Y2, Y3 = (gen.build_tt(s_, as_float=True) for s_ in (s1, s2, s3))
     c, c2 = case["c"], case["c2"]
     n = s1["n"]
     d = len(n)
     ex = exact_ok(s1) and exact_ok(s2)
     F1, F2, A1, A2 = dense(Y1), dense(Y2), dense_abs(Y1), dense_abs(Y2)
+    F3, A3 = dense(Y3), dense_abs(Y3)
+    # from here on Y1, Y2, Y3 are what the library is given (integer arrays if the spec says so); references come from F / A above
+    Y1, Y2, Y3 = gen.build_tt(s1), gen.build_tt(s2), gen.build_tt(s3)
+    for s_ in (s1, s2, s3):
+        if s_.get("store"):
+            ctx.label("stored_as:" + s_["store"])
     for s in (s1, s2):
         ctx.label(*gen.spec_labels(s))
     ctx.label("number_operand")
     ctx.nontrivial(True)
     K = 32.0 * (d + sum(a * b for a, b in zip(s1["r"], s2["r"])) + sum(s1["r"]) + sum(s2["r"]) + max(n))
 
+    ints = any(s_.get("store") for s_ in (s1, s2, s3))      # results of integer-stored operands may be integer arrays (values still checked)
+
     def cmp(Z, ref, maj, what, exact=False):
-        why = oracle.wellformed(Z, n, finite=False)
+        why = oracle.wellformed(Z, n, finite=False, int_ok=ints)
         ctx.check(why is None, f"{what}: result is not a well-formed TT-tensor of the operand shape: {why}")
         close(ctx, dense(Z), ref, K * EPS * maj, what, exact)
 
@@ -257,14 +268,13 @@ def prop_binary(case, ctx):
         ctx.check(isinstance(got, (int, float)) and got == pyop(c, c2), f"{op.__name__}(number, number)", got=got, ref=pyop(c, c2))
 
     # outer products
-    F3, A3 = dense(Y3), dense_abs(Y3)
     Z = ctx.lib(teneva.outer, Y1, Y3)
-    why = oracle.wellformed(Z, n + s3["n"], finite=False)
+    why = oracle.wellformed(Z, n + s3["n"], finite=False, int_ok=ints)
     ctx.check(why is None, f"outer: {why}")
     close(ctx, dense(Z), np.multiply.outer(F1, F3), K * EPS * np.multiply.outer(A1, A3) * 2, "outer", ex and exact_ok(s3))
     if F1.size * F3.size * F3.size <= 2 ** 16:
         Z = ctx.lib(teneva.outer_many, [Y3, Y1, Y3])
-        why = oracle.wellformed(Z, s3["n"] + n + s3["n"], finite=False)
+        why = oracle.wellformed(Z, s3["n"] + n + s3["n"], finite=False, int_ok=ints)
         ctx.check(why is None, f"outer_many: {why}")
         close(ctx, dense(Z), np.multiply.outer(np.multiply.outer(F3, F1), F3),
               3 * K * EPS * np.multiply.outer(np.multiply.outer(A3, A1), A3), "outer_many", ex and exact_ok(s3))
@@ -318,9 +328,9 @@ def tree_strategy(depth):
 @st.composite
 def program_cases(draw, tier):
     n = draw(gen.shapes(d_max=4 if tier == "quick" else 5, n_max=4, size_max=256))
-    leaves = [draw(gen.tt_specs(shape=n, r_max=2, families=("smallint", "dyadic", "float", "gauss", "zero", "explicit"))) for _ in range(3)]
+    leaves = [draw(gen.tt_specs(shape=n, r_max=2, families=("smallint", "dyadic", "float", "gauss", "zero", "explicit"), int_storage=True)) for _ in range(3)]
     tree = draw(tree_strategy(3 if tier == "quick" else 4))
-    outer_with = draw(st.one_of(st.none(), gen.tt_specs(d_max=2, n_max=3, r_max=2, size_max=9)))
+    outer_with = draw(st.one_of(st.none(), gen.tt_specs(d_max=2, n_max=3, r_max=2, size_max=9, int_storage=True)))
     return {"n": n, "leaves": leaves, "tree": tree, "outer": outer_with, "I": draw(gen.indices(n, m_max=6))}
 
 
@@ -358,8 +368,10 @@ def eval_tree(tree, ctx, tts, dens, dabs):
 def prop_program(case, ctx):
     n = case["n"]
     tts = [gen.build_tt(s) for s in case["leaves"]]
-    dens = [dense(Y) for Y in tts]
-    dabs = [dense_abs(Y) for Y in tts]
+    dens = [dense(gen.build_tt(s, as_float=True)) for s in case["leaves"]]
+    dabs = [dense_abs(gen.build_tt(s, as_float=True)) for s in case["leaves"]]
+    if any(s.get("store") for s in case["leaves"]):
+        ctx.label("integer_stored_leaf")
     got, ref, maj, nops = eval_tree(case["tree"], ctx, tts, dens, dabs)
     ctx.label(f"ops:{min(nops, 6)}")
     ctx.nontrivial(nops >= 2)
@@ -369,7 +381,7 @@ def prop_program(case, ctx):
         ctx.check(abs(got - ref) <= 1e-12 * max(abs(maj), 1e-300) or got == ref, "number expression", got=got, ref=ref)
         return
     ctx.check(not _is_num(ref) or True, "")
-    why = oracle.wellformed(got, n, finite=False)
+    why = oracle.wellformed(got, n, finite=False, int_ok=any(s.get("store") for s in case["leaves"]))
     ctx.check(why is None, f"program result is not a well-formed TT-tensor of shape {n}: {why}")
     ref = np.broadcast_to(ref, tuple(n)) if np.ndim(ref) == 0 else ref
     maj = np.broadcast_to(maj, tuple(n)) if np.ndim(maj) == 0 else maj
@@ -379,9 +391,9 @@ def prop_program(case, ctx):
     Iarr = np.array(case["I"], dtype=int)
     close(ctx, ctx.lib(teneva.get_many, got, case["I"]), ref[tuple(Iarr.T)], (K * EPS * maj)[tuple(Iarr.T)], "program: get_many")
     if case["outer"] is not None:
-        Yo = gen.build_tt(case["outer"])
+        Yo, Yof = gen.build_tt(case["outer"]), gen.build_tt(case["outer"], as_float=True)
         Z = ctx.lib(teneva.outer, got, Yo)
-        close(ctx, dense(Z), np.multiply.outer(ref, dense(Yo)), 2 * K * EPS * np.multiply.outer(maj, dense_abs(Yo)), "program: outer at the root")
+        close(ctx, dense(Z), np.multiply.outer(ref, dense(Yof)), 2 * K * EPS * np.multiply.outer(maj, dense_abs(Yof)), "program: outer at the root")
 
 
 # ------------------------------------------------------------------------------------------- tensors far too large for a dense copy
